@@ -153,7 +153,8 @@ func (t *Template) peekNonSpace() (token item) {
 // errorf formats the error and terminates processing.
 func (t *Template) errorf(format string, args ...interface{}) {
 	t.Root = nil
-	format = fmt.Sprintf("template: %s:%d: %s", t.ParseName, t.lex.lineNumber(), format)
+	// the name becomes part of a format string: a '%' in it must not be taken for a verb
+	format = fmt.Sprintf("template: %s:%d: %s", strings.ReplaceAll(t.ParseName, "%", "%%"), t.lex.lineNumber(), format)
 	panic(fmt.Errorf(format, args...))
 }
 
